@@ -136,6 +136,41 @@ def apply_real(c, action, args):
     raise core.MachineryError(f"unknown action {action}")
 
 
+def replay_walks(ck, cap, states, edges, inits, nwalks, length, rnd):
+    """Long random walks through the same state graph, state compared after every step.  Shortest paths reach every
+    abstract state by inserting keys in recency order, so they never separate what the object remembers besides
+    the abstract state (e.g. the insertion order of its dict) from the recency order; walks with promotions,
+    overwrites, copies and pickle round trips in the middle do."""
+    from jinja2.utils import LRUCache
+    out = {}
+    for (src, dst, label) in edges:
+        out.setdefault(src, []).append((dst, label))
+    n = 0
+    for _ in range(nwalks):
+        cur = rnd.choice(sorted(inits))
+        c = LRUCache(cap)
+        hist = []
+        for _ in range(length):
+            if cur not in out:
+                break
+            # prefer steps that change or copy the object over pure reads
+            cand = out[cur]
+            heavy = [e for e in cand if norm_label(e[1])[0] in ("GetItem", "Get", "SetItem", "SetDefault", "DelItem", "Copy", "Pickle")]
+            dst, label = rnd.choice(heavy if heavy and rnd.random() < 0.85 else cand)
+            act, args = norm_label(label)
+            c, res = apply_real(c, act, args)
+            hist.append(label)
+            n += 1
+            proj, want = project(c), expected_projection(states[dst])
+            if proj != want:
+                ck.violation({"kind": "walk", "cap": cap, "path": list(hist), "expected_state": want, "actual_state": proj},
+                             f"LRUCache(cap={cap}) after the history {hist}: expected state {want['items']}, got {proj['items']}",
+                             {"kind": "lru-sequential", "action": act})
+                break
+            cur = dst
+    return n
+
+
 def replay_graph(ck, cap, states, edges, inits):
     from jinja2.utils import LRUCache
 
@@ -432,6 +467,8 @@ def run(ck):
         ck.add_tlc(r, f"LRU graph cap={cap}")
         states, edges, inits = core.parse_dot(r.dir / "graph.dot")
         replayed += replay_graph(ck, cap, states, edges, inits)
+        if cap > 1:
+            replayed += replay_walks(ck, cap, states, edges, inits, 400 if quick else 6000, 14, random.Random(ck.seed * 13 + cap))
         labels = {norm_label(e[2])[0] for e in edges}
         missing = {"GetItem", "Get", "SetItem", "DelItem", "SetDefault", "Contains", "LenOp", "Clear", "KeysOp",
                    "Copy", "Pickle"} - labels
